@@ -194,31 +194,29 @@ class RuleResult:
 
 
 def load_known(prop):
+    """known_findings.txt lines:  finding: property=<id> rule=<rule> key=<key, may contain spaces>  # witness
+                                  fixed:   property=<id> <commit> rule=<rule> key=<key>  # what failed"""
+    import re
     findings, fixed = {}, []
     p = os.path.join(VERIF, 'known_findings.txt')
     if not os.path.exists(p):
         return findings, fixed
+    rx = re.compile(r'^(finding|fixed):\s+property=(\S+)\s+(?:(\S+)\s+)?rule=(\S+)\s+key=(.*)$')
     for line in open(p):
         line = line.rstrip('\n')
         if not line.strip() or line.lstrip().startswith('#'):
             continue
         body, _, comment = line.partition('  # ')
-        toks = body.split()
-        kind = toks[0]
-        kv = {}
-        rest = []
-        for t in toks[1:]:
-            if '=' in t and t.split('=', 1)[0] in ('property', 'rule', 'key'):
-                k, v = t.split('=', 1)
-                kv[k] = v
-            else:
-                rest.append(t)
-        if kv.get('property') != prop:
+        mm = rx.match(body.strip())
+        if not mm:
             continue
-        if kind == 'finding:':
-            findings[(kv.get('rule'), kv.get('key'))] = comment.strip()
-        elif kind == 'fixed:':
-            fixed.append((kv, rest, comment.strip()))
+        kind, pid, commit, rule, key = mm.groups()
+        if pid != prop:
+            continue
+        if kind == 'finding':
+            findings[(rule, key.strip())] = comment.strip()
+        else:
+            fixed.append((commit, rule, key.strip(), comment.strip()))
     return findings, fixed
 
 
